@@ -214,9 +214,12 @@ def call_real(ledger, net, loop, Transaction, raw, hc, resp, path):
     return tx.is_verified, tx.position, tx.height, None
 
 
-def judge(ctx, case, path, got, replay):
+def judge(ctx, case, path, got, make_replay):
     ver, pos, height, exc = got
     kind = case['kind']
+    if exc is None and ver is case['verified'] and pos == case['position'] and (not ver or height == case['height']):
+        return
+    replay = make_replay()
     if exc is not None:
         ctx.violation(f'raises:{kind}:{exc}', f'maybe_verify_transaction raised {exc} on case {brief(case)} via {path}', replay)
         return
@@ -233,6 +236,10 @@ def judge(ctx, case, path, got, replay):
         ctx.violation(key, f'tx.is_verified = {ver}, specification says {case["verified"]} on case {brief(case)} via {path}', replay)
         return
     if pos != case['position']:
+        if not 0 < case['hc'] < HLEN:
+            ctx.violation(f'position-set-without-header:{kind}', f'tx.position = {pos!r} at claimed height {case["hc"]} with {HLEN} headers on case '
+                          f'{brief(case)} via {path}', replay)
+            return
         ctx.violation(f'position-wrong:{kind}', f'tx.position = {pos!r}, specification says {case["position"]} on case {brief(case)} via {path}', replay)
         return
     if ver and height != case['height']:
@@ -302,13 +309,12 @@ def run_shard(ctx, nmin, nmax, leafall, stats):
                     stats['flips_in_branch_n<=16_verified'] = stats.get('flips_in_branch_n<=16_verified', 0) + int(c['verified'])
             for path in PATHS:
                 got = call_real(b.ledger, b.net, loop, b.Transaction, raw, c['hc'], resp, path)
-                key = (n, i, blk, c['kind'], c['k'], c['pos'], c['leaf'], c['hc'], tuple(map(tuple, c['branch'])), path)
-                ctx.count(key, nontrivial=n >= 2)
-                replay = {'case': c, 'path': path, 'raw_tx': raw.hex(), 'response': resp, 'claimed_height': c['hc'],
-                          'header_chain': b.chain.hex(), 'expected': {'verified': c['verified'], 'position': c['position']},
-                          'observed': {'is_verified': got[0], 'position': got[1], 'height': got[2], 'raised': got[3]}}
-                judge(ctx, c, path, got, replay)
                 stats['evaluations'] = stats.get('evaluations', 0) + 1
+                ctx.count(stats['evaluations'], nontrivial=n >= 2)      # TLC states are distinct, so every (case, path) is
+                judge(ctx, c, path, got, lambda c=c, path=path, got=got, raw=raw, resp=resp: {
+                    'case': c, 'path': path, 'raw_tx': raw.hex(), 'response': resp, 'claimed_height': c['hc'],
+                    'header_chain': b.chain.hex(), 'expected': {'verified': c['verified'], 'position': c['position']},
+                    'observed': {'is_verified': got[0], 'position': got[1], 'height': got[2], 'raised': got[3]}})
             if n in (5, 7) and i == n - 1 and blk == 1 + ((n + i) % (HLEN - 1)) and c['kind'] in ('none', 'flip'):
                 ctx.sample({'case': brief(c), 'branch': [x[::-1].hex()[:16] + '..' for x in branch], 'txid': dsha(raw)[::-1].hex(),
                             'spec_verified': c['verified'], 'real_is_verified': got[0], 'real_position': got[1]}, cap=8)
@@ -341,7 +347,7 @@ def replay_one(ctx):
     got = call_real(ledger, net, loop, Transaction, bytes.fromhex(r['raw_tx']), r['claimed_height'], r['response'], r['path'])
     ctx.count(('replay', r['path']))
     print(f'replay: observed is_verified={got[0]} position={got[1]} height={got[2]} raised={got[3]}; expected {r["expected"]}', flush=True)
-    judge(ctx, r['case'], r['path'], got, r)
+    judge(ctx, r['case'], r['path'], got, lambda: r)
 
 
 def run(ctx):
